@@ -358,7 +358,12 @@ func one(ctx context.Context, w *run.Worker, c *run.Case) {
 			c.Violation("localstore.Get:corrupted-object-served", "reading a corrupted object returned wrong bytes")
 		}
 		detected := false
-		if rerr != nil && !served {
+		if rerr != nil && !served && asm.IsNotFound(rerr) && v.loc.AbsBlock < s.BL.Pops.Load() {
+			// The victim's block was rotated out (by a concurrent reader's
+			// refresh) before the victim was read: nothing to detect.
+			w.Count("victim_rotated_out_before_read", 1)
+			mustDetect = false
+		} else if rerr != nil && !served {
 			if status.Code(rerr) == codes.Internal {
 				detected = true
 			} else if mustDetect {
